@@ -9,7 +9,8 @@ def main():
     spec = json.load(sys.stdin)
     os.chdir(spec['dir'])
     real_stdout = sys.stdout
-    cap = io.TextIOWrapper(io.BytesIO(), encoding='utf-8', errors='strict', write_through=True)      # like a real stdout (file, pipe)
+    # like a real stdout (file, pipe): strict; some worlds ask for a narrower encoding (LANG=C terminals)
+    cap = io.TextIOWrapper(io.BytesIO(), encoding=spec.get('stdout_encoding', 'utf-8'), errors='strict', write_through=True)
     cap_err = io.TextIOWrapper(io.BytesIO(), encoding='utf-8', errors='backslashreplace', write_through=True)
     cap._vw_orig = True
     cap_err._vw_orig = True
